@@ -900,6 +900,14 @@ func (e *Engine) assertAtCall(st *State, key string, call *ast.CallExpr) error {
 			return fmt.Errorf("%s: assert-at-call of %s: %v", e.curCon.File, e.curCon.Key, err)
 		}
 		env := e.newEnv(st, call.Pos())
+		// $arg<i>: the call's argument values
+		if strings.Contains(text, "$arg") {
+			for k, ax := range call.Args {
+				if av, err := e.eval(st.Clone(), ax); err == nil {
+					env.Bound[fmt.Sprintf("$arg%d", k)] = av
+				}
+			}
+		}
 		v, err := e.evalSpec(env, x)
 		if err != nil {
 			return fmt.Errorf("%s: assert-at-call of %s: %v", e.curCon.File, e.curCon.Key, err)
